@@ -1559,3 +1559,121 @@ def first_element_speaks_for_all(ctx, funcs, rule='SINK'):
                                   f"kind inside the container - where the per-element path handles each on its own",
                                   key=f"{rule}|{fi.qualname}|first-element|{c.args[0].id}", where=loc(fi, c))
     return n
+
+
+def recursion_makes_progress(ctx, funcs, rule='EXC'):
+    """A function that calls itself (`self.f(...)` / `f(...)`) with every
+    argument being the unchanged parameter of the same name, under a
+    condition that looks only at those parameters and at constants, repeats
+    the same call for ever: RecursionError out of the parse."""
+    from ..srcmodel import facts_at
+    n = 0
+    for fi in funcs:
+        name = fi.node.name
+        params = [p for p in fi.params() if p not in ('self', 'cls')]
+        reassigned = set()
+        for a_ in walk_local(fi.node):
+            if isinstance(a_, ast.Name) and isinstance(a_.ctx, ast.Store):
+                # resolving a missing argument (`if p is None: p = default(...)`) is the same on every level
+                st_ = a_
+                while st_ is not None and not isinstance(st_, ast.stmt):
+                    st_ = getattr(st_, '_parent', None)
+                resolves = st_ is not None and any(t == f"{a_.id} is None" and pol for _e, t, pol in facts_at(st_))
+                if not resolves:
+                    reassigned.add(a_.id)
+        for c in walk_local(fi.node):
+            if not (isinstance(c, ast.Call) and (dotted(c.func) in (f"self.{name}", f"cls.{name}", name))):
+                continue
+            if dotted(c.func) == name and fi.cls is not None:
+                continue            # a method calling the module-level function of the same name
+            n += 1
+            bound = {}
+            for i, a in enumerate(c.args):
+                if i < len(params):
+                    bound[params[i]] = a
+            for k in c.keywords:
+                if k.arg:
+                    bound[k.arg] = k.value
+            same = all(isinstance(v, ast.Name) and v.id == p and p not in reassigned for p, v in bound.items()) and bool(bound)
+            # parameters not passed keep their defaults: treat as changed unless default is the only value they can have
+            if not same:
+                continue
+            facts = facts_at(c)
+            state = [t for e, t, _p in facts for x in ast.walk(e) if isinstance(x, ast.Attribute) and norm(x.value) in ('self', 'cls')
+                     and x.attr != x.attr.upper()]
+            ctx.check(bool(state), rule, f"{fi.qualname}: the recursive call `{norm(c)[:50]}` changes something",
+                      detail_bad=f"`{norm(c)[:70]}` passes every argument on unchanged, and the condition it stands under "
+                                 f"({[t for _e, t, _p in facts][:2]}) depends on nothing else: once reached, the call repeats itself "
+                                 f"until RecursionError (a description written without colons under sec_colon_cautious)",
+                      key=f"{rule}|{fi.qualname}|recursion-no-progress", where=loc(fi, c))
+    return n
+
+
+def cross_component_compare(ctx, funcs, rule='SIB'):
+    """In the code that takes a Twp/Rge/Sec apart, a comparison whose two
+    sides name DIFFERENT components (`mo.group('rge') == MC._UNDEF_TWP`) is a
+    copy-and-paste slip: both undefined placeholders are '___z', so it even
+    looks right on the usual inputs."""
+    import re as _re
+    TOK = ('twp', 'rge', 'sec')
+
+    def toks(e):
+        out = set()
+        for x in ast.walk(e):
+            s = x.id if isinstance(x, ast.Name) else x.attr if isinstance(x, ast.Attribute) else \
+                x.value if isinstance(x, ast.Constant) and isinstance(x.value, str) and len(x.value) < 20 else None
+            if s:
+                for t in TOK:
+                    if s.lower() == t or _re.search(rf"(?i)(^|_){t}(_|$|num|undef)", s):
+                        out.add(t)
+        return out
+    n = 0
+    for fi in funcs:
+        for c in walk_local(fi.node):
+            if isinstance(c, ast.Compare) and len(c.ops) == 1:
+                a, b = toks(c.left), toks(c.comparators[0])
+                if a and b:
+                    n += 1
+                    ctx.check(bool(a & b), rule, f"{fi.qualname}: `{norm(c)[:50]}` compares a component with its own placeholder",
+                              detail_bad=f"`{norm(c)}` tests the {sorted(a)[0]} against a {sorted(b)[0]} constant: when the two components differ "
+                                         f"in kind (an undefined township next to a valid range) the wrong one is reported as undefined / "
+                                         f"error, and the standard form is no longer a fixed point",
+                              key=f"{rule}|{fi.qualname}|cross-component|{norm(c)[:40]}", where=loc(fi, c))
+    return n
+
+
+def float_of_matched_text(ctx, funcs, rule='EXC'):
+    """`float(x)` / `int(x)` on an acreage outside try/except ValueError: the
+    acreage patterns accept '()', '( )' and '(.)' - brackets with nothing or
+    only a dot in them - so the text between the brackets need not be a
+    number."""
+    from .. import rx
+    import re as _re
+    try:
+        rv = ctx.fold.get('rgxlib.lots', 'lot_acres_unpacker_regex')
+        gf = group_facts(ctx, rv)
+        words = rx.enumerate_words(gf['acreage'].node, rv.flags) if 'acreage' in gf else []
+    except AnalysisError:
+        words = []
+    inner = [w.strip('()[]{} ') for w in words]
+    notnum = [w for w in inner if not _re.fullmatch(r"[+-]?(\d+\.?\d*|\.\d+)", w)]
+    n = 0
+    for fi in funcs:
+        for c in walk_local(fi.node):
+            if not (isinstance(c, ast.Call) and dotted(c.func) in ('float', 'int') and c.args):
+                continue
+            arg = c.args[0]
+            if not any(isinstance(x, ast.Name) and 'acre' in x.id.lower() for x in ast.walk(arg)) \
+                    and 'acre' not in norm(arg).lower():
+                continue
+            p, guarded = getattr(c, '_parent', None), False
+            while p is not None and p is not fi.node:
+                if isinstance(p, ast.Try) and any(h.type is None or 'ValueError' in norm(h.type) or 'Exception' in norm(h.type) for h in p.handlers):
+                    guarded = True
+                p = getattr(p, '_parent', None)
+            n += 1
+            ctx.check(guarded or not notnum, rule, f"{fi.qualname}: `{norm(c)[:40]}` only sees a number",
+                      detail_bad=f"`{norm(c)}` converts a stated acreage without catching ValueError, and the acreage pattern also matches "
+                                 f"brackets around {notnum[0]!r} ('Lot 1 ()', 'Lot 2 (.)'): ValueError escapes from the lot / aliquot "
+                                 f"parse" if notnum else '', key=f"{rule}|{fi.qualname}|float-acreage", where=loc(fi, c))
+    return n
